@@ -41,6 +41,7 @@ import (
 	"strings"
 	"testing"
 
+	"github.com/btcsuite/btcwallet/walletdb"
 	"github.com/lightningnetwork/lnd/kvdb"
 	"github.com/lightningnetwork/lnd/lnwire"
 )
@@ -260,7 +261,31 @@ type c02fChan struct {
 	htlcID uint64
 }
 
+// c02fBackend counts the write transactions that commit and calls `hook`
+// right after each commit (= every instant at which a crash leaves a new
+// durable state).
+type c02fBackend struct {
+	walletdb.DB
+	n    int
+	hook func(n int)
+}
+
+func (b *c02fBackend) Update(f func(tx walletdb.ReadWriteTx) error, reset func()) error {
+	err := b.DB.Update(f, reset)
+	if err == nil {
+		b.n++
+		if b.hook != nil {
+			b.hook(b.n)
+		}
+	}
+	return err
+}
+
 type c02fCtx struct {
+	raw   *ChannelStateDB // unwrapped store: what a restarted node opens
+	wb    *c02fBackend
+	tx0   int
+	imgs  []string
 	t     *testing.T
 	w     *bufio.Writer
 	r     *rand.Rand
@@ -444,8 +469,72 @@ func (c *c02fCtx) scid(name string) lnwire.ShortChannelID {
 	return lnwire.NewShortChanIDFromInt(0x0c02ffff)
 }
 
+// image: every acknowledged index of every package of both channels plus
+// whether channel x has a pending commit diff, read through the unwrapped store
+// right after the k-th write transaction of the operation in progress.
+func (c *c02fCtx) image(x, k int) string {
+	var acked, sfacked []string
+	pend := 0
+	for y := 0; y < 2; y++ {
+		old := c.cs[y].ch
+		chans, err := c.raw.FetchOpenChannels(old.IdentityPub)
+		if err != nil {
+			continue
+		}
+		for _, oc := range chans {
+			if oc.FundingOutpoint != old.FundingOutpoint {
+				continue
+			}
+			if y == x {
+				if d, err := oc.RemoteCommitChainTip(); err == nil && d != nil {
+					pend = 1
+				}
+			}
+			pkgs, _ := oc.LoadFwdPkgs()
+			for _, p := range pkgs {
+				for i := range p.Adds {
+					if p.AckFilter.Contains(uint16(i)) {
+						acked = append(acked, fmt.Sprintf("%s:%d:%d", c.cs[y].name, p.Height, i))
+					}
+				}
+				for i := range p.SettleFails {
+					if p.SettleFailFilter.Contains(uint16(i)) {
+						sfacked = append(sfacked, fmt.Sprintf("%s:%d:%d", c.cs[y].name, p.Height, i))
+					}
+				}
+			}
+		}
+	}
+	j := func(l []string) string {
+		if len(l) == 0 {
+			return "-"
+		}
+		return strings.Join(l, ",")
+	}
+	return fmt.Sprintf("MI ch=%s k=%d pend=%d acked=%s sfacked=%s\n", c.cs[x].name, k, pend, j(acked), j(sfacked))
+}
+
+func (c *c02fCtx) txBegin(x int) {
+	c.tx0 = c.wb.n
+	c.imgs = nil
+	c.wb.hook = func(n int) { c.imgs = append(c.imgs, c.image(x, n-c.tx0)) }
+}
+
+// op prints the operation line with the number of write transactions the call
+// committed (the model: exactly one for a successful operation, none for a
+// failed one); if there were several, the crash image after each of them.
 func (c *c02fCtx) op(format string, a ...interface{}) {
-	fmt.Fprintf(c.w, format, a...)
+	c.wb.hook = nil
+	n := c.wb.n - c.tx0
+	line := fmt.Sprintf(format, a...)
+	fmt.Fprintf(c.w, "%s txs=%d\n", strings.TrimRight(line, "\n"), n)
+	if n >= 2 {
+		for _, im := range c.imgs {
+			c.w.WriteString(im)
+		}
+		c.stats["ops_with_several_write_txs"]++
+	}
+	c.imgs = nil
 	c.stats["store_ops"]++
 }
 
@@ -484,6 +573,7 @@ func (c *c02fCtx) sign(x int, loaded map[string][]*FwdPkg) {
 	for _, r := range sfAcks {
 		diff.SettleFailAcks = append(diff.SettleFailAcks, SettleFailRef{Source: c.scid(r.ch), Height: r.h, Index: r.idx})
 	}
+	c.txBegin(x)
 	res := c.guarded(func() error { return ch.AppendRemoteCommitChain(diff) })
 	c.op("O sign ch=%s acks=%s sfacks=%s => %s\n", cc.name, c02fRefs(addAcks, false), c02fRefs(sfAcks, true), res)
 	if res == "ok" {
@@ -503,6 +593,7 @@ func (c *c02fCtx) adv(x int, maxSize int) {
 	}
 	adds, sfs := c.mkUpdates(x, nAdds, nSfs)
 	pkg := NewFwdPkg(ch.ShortChanID(), cc.height, adds, sfs)
+	c.txBegin(x)
 	res := c.guarded(func() error {
 		return ch.AdvanceCommitChainTail(pkg, nil, dummyLocalOutputIndex, dummyRemoteOutIndex)
 	})
@@ -563,6 +654,7 @@ func (c *c02fCtx) setFwd(x int, loaded map[string][]*FwdPkg) {
 		}
 	}
 	c.r.Shuffle(len(idx), func(i, j int) { idx[i], idx[j] = idx[j], idx[i] })
+	c.txBegin(x)
 	res := c.guarded(func() error {
 		for _, i := range idx {
 			filter.Set(uint16(i))
@@ -587,6 +679,7 @@ func (c *c02fCtx) ackAdd(x int, loaded map[string][]*FwdPkg) {
 	for _, r := range refs {
 		ar = append(ar, AddRef{Height: r.h, Index: r.idx})
 	}
+	c.txBegin(x)
 	res := c.guarded(func() error { return cc.ch.AckAddHtlcs(ar...) })
 	c.op("O ackadd ch=%s refs=%s => %s\n", cc.name, c02fRefs(refs, false), res)
 }
@@ -605,6 +698,7 @@ func (c *c02fCtx) ackSf(x int, loaded map[string][]*FwdPkg) {
 	for _, r := range refs {
 		sr = append(sr, SettleFailRef{Source: c.scid(r.ch), Height: r.h, Index: r.idx})
 	}
+	c.txBegin(x)
 	res := c.guarded(func() error { return cc.ch.AckSettleFails(sr...) })
 	c.op("O acksf ch=%s refs=%s => %s\n", cc.name, c02fRefs(refs, true), res)
 }
@@ -624,6 +718,7 @@ func (c *c02fCtx) remove(x int, loaded map[string][]*FwdPkg) {
 	if len(hs) == 0 {
 		return
 	}
+	c.txBegin(x)
 	res := c.guarded(func() error { return cc.ch.RemoveFwdPkgs(hs...) })
 	var ss []string
 	for _, h := range hs {
@@ -638,8 +733,13 @@ func c02fStoreCase(t *testing.T, w *bufio.Writer, id int, seed int64, steps, max
 	if err != nil {
 		t.Fatalf("db: %v", err)
 	}
-	cdb := fullDB.ChannelStateDB()
-	c := &c02fCtx{t: t, w: w, r: r, cdb: cdb, stats: stats}
+	wb := &c02fBackend{DB: fullDB.Backend}
+	wdb, err := CreateWithBackend(wb)
+	if err != nil {
+		t.Fatalf("wrap db: %v", err)
+	}
+	cdb := wdb.ChannelStateDB()
+	c := &c02fCtx{t: t, w: w, r: r, cdb: cdb, raw: fullDB.ChannelStateDB(), wb: wb, stats: stats}
 	for x := 0; x < 2; x++ {
 		scid := lnwire.NewShortChanIDFromInt(uint64(0x0c020000 + id*4 + x))
 		ch := createTestChannel(t, cdb, channelIDOption(scid), openChannelOption())
